@@ -294,6 +294,7 @@ Proof.
   destruct cmd as [cm|]; [|apply sim_full; assumption].
   rewrite sim_lookup_by_command; [|exact Hw|repeat split; assumption].
   match goal with |- context [ref_lookup ?u ?v ?w] => destruct (ref_lookup u v w) as [x|] end; cbn [option_map]; [|apply sim_full; assumption].
+  destruct (has_usable_key (fst x)); [|apply sim_full; assumption].
   unfold resume_session.
   destruct (on_resume p (e_id (fst x))); cbn [fst].
   - split; [|exact Hw].
@@ -444,8 +445,10 @@ Proof.
   destruct cmd as [cm|]; [|apply sound_full; [apply Hf; reflexivity|exact S]].
   rewrite sim_lookup_by_command in Hf; [|exact Hw|repeat split; assumption].
   match goal with |- context [ref_lookup ?u ?v ?w] => destruct (ref_lookup u v w) as [x|] eqn:EL end.
-  - apply ref_lookup_In in EL as (Hin & _ & _).
-    destruct (on_resume p (e_id (fst x))); auto using sound_drop, sound_renew.
+  - apply ref_lookup_In in EL as (Hin & _ & _). cbn [option_map] in Hf.
+    destruct (has_usable_key (fst x)).
+    + destruct (on_resume p (e_id (fst x))); auto using sound_drop, sound_renew.
+    + apply sound_full; [|exact S]. apply Hf. reflexivity.
   - apply sound_full; [|exact S]. apply Hf. reflexivity.
 Qed.
 
@@ -516,7 +519,7 @@ Proof.
     rewrite L in A.
     match type of A with context [ref_lookup ?u ?v ?w] => destruct (ref_lookup u v w) as [x|] eqn:EL end;
       [|discriminate].
-    simpl in A. inversion A. exists x. split; reflexivity.
+    simpl in A. destruct (has_usable_key (fst x)); [|discriminate]. inversion A. exists x. split; reflexivity.
   - intros x EL. apply ref_lookup_In in EL as (Hin & Hx & Hr).
     destruct (S (t, a, cm) (e_id (fst x)) x Hr Hin eq_refl) as (H1 & H2 & H3). auto.
 Qed.
@@ -614,6 +617,7 @@ Proof.
   - intros sid t a cmd A. unfold client_action in A. destruct sid as [|b s].
     + destruct a as [|b a']; [discriminate|]. destruct cmd as [cm|]; [|discriminate].
       destruct (lookup_by_command c now t (b :: a') cm) as [e|] eqn:L; [|discriminate].
+      destruct (has_usable_key e); [|discriminate].
       inversion A as [K]. apply lookup_by_command_inv in L as (_ & F & _).
       apply find_sess_id in F as [_ F]. exact (find_sess_none id _ e H F K).
     + unfold lookup in A. destruct (find_sess (b :: s) (c_sessions c)) as [e|] eqn:F; [|discriminate].
@@ -636,6 +640,7 @@ Proof.
   - intros sid t a cmd A. unfold client_action in A. destruct sid as [|b s].
     + destruct a as [|b a']; [discriminate|]. destruct cmd as [cm|]; [|discriminate].
       destruct (lookup_by_command c now t (b :: a') cm) as [e'|] eqn:L; [|discriminate].
+      destruct (has_usable_key e'); [|discriminate].
       inversion A as [K]. apply lookup_by_command_inv in L as (_ & F' & X').
       rewrite K in F'. rewrite F in F'. inversion F'; subst. congruence.
     + unfold lookup in A. destruct (find_sess (b :: s) (c_sessions c)) as [e'|] eqn:F'; [|discriminate].
@@ -670,7 +675,7 @@ Qed.
 (* drop-on-failure: SID_NOT_FOUND or a broken exchange *)
 Lemma drop_on_failure c now t a cm p e :
   cache_ok c -> a <> [] ->
-  lookup_by_command c now t a cm = Some e ->
+  lookup_by_command c now t a cm = Some e -> has_usable_key e = true ->
   (on_resume p (e_id e) = RSidNotFound \/ on_resume p (e_id e) = RBroken) ->
   let c' := fst (client_handshake c now [] t a (Some cm) p) in
   client_action c now [] t a (Some cm) = AResume (e_id e) /\
@@ -680,8 +685,8 @@ Lemma drop_on_failure c now t a cm p e :
   (forall now', client_action c' now' [] t a (Some cm) = AFull) /\
   cache_ok c'.
 Proof.
-  intros Hok Ha L Hr. pose proof (lookup_by_command_inv _ _ _ _ _ _ L) as (M & F & X).
-  unfold client_handshake, client_action. destruct a as [|b a']; [contradiction|]. rewrite L.
+  intros Hok Ha L Hu Hr. pose proof (lookup_by_command_inv _ _ _ _ _ _ L) as (M & F & X).
+  unfold client_handshake, client_action. destruct a as [|b a']; [contradiction|]. rewrite L, Hu.
   assert (E : resume_session c now e p = (fst (invalidate c (e_id e)), OResumeErr (e_id e))).
   { unfold resume_session. destruct Hr as [-> | ->]; reflexivity. }
   rewrite E. cbn [fst snd]. pose proof (invalidate_gone c (e_id e)) as [G1 G2].
@@ -726,7 +731,8 @@ Proof.
     destruct (on_resume p (e_id e)); cbn [fst]; auto using cache_ok_invalidate. }
   unfold client_handshake. destruct sid as [|b s].
   - destruct a as [|b a']; [exact Hfull|]. destruct cmd as [cm|]; [|exact Hfull].
-    destruct (lookup_by_command c now t (b :: a') cm); [apply Hres; exact H|exact Hfull].
+    destruct (lookup_by_command c now t (b :: a') cm) as [e|]; [|exact Hfull].
+    destruct (has_usable_key e); [apply Hres; exact H|exact Hfull].
   - unfold lookup_nonexpired. destruct (find_sess (b :: s) (c_sessions c)) as [e|]; [|exact H].
     destruct (is_expired e now); [exact H|]. apply Hres. exact H.
 Qed.
@@ -750,7 +756,7 @@ Qed.
 (* ConnectAndAuthenticateWithConfig: after a failed resumption the second attempt is a full handshake *)
 Lemma retry_is_full c now t a cm p1 p2 e :
   cache_ok c -> a <> [] ->
-  lookup_by_command c now t a cm = Some e ->
+  lookup_by_command c now t a cm = Some e -> has_usable_key e = true ->
   (on_resume p1 (e_id e) = RSidNotFound \/ on_resume p1 (e_id e) = RBroken) ->
   exists c1,
     fst (client_handshake c now [] t a (Some cm) p1) = c1 /\
@@ -758,16 +764,17 @@ Lemma retry_is_full c now t a cm p1 p2 e :
     connect_and_authenticate c now [] t a (Some cm) p1 p2 =
       (fst (full_auth c1 now t a p2), [OResumeErr (e_id e); snd (full_auth c1 now t a p2)]).
 Proof.
-  intros Hok Ha L Hr.
-  pose proof (drop_on_failure c now t a cm p1 e Hok Ha L Hr) as (_ & O & _ & _ & N & _).
+  intros Hok Ha L Hu Hr.
+  pose proof (drop_on_failure c now t a cm p1 e Hok Ha L Hu Hr) as (_ & O & _ & _ & N & _).
   exists (fst (client_handshake c now [] t a (Some cm) p1)). split; [reflexivity|]. split; [apply N|].
   unfold connect_and_authenticate.
   destruct (client_handshake c now [] t a (Some cm) p1) as [c1 o1] eqn:E1. cbn [fst snd] in *. subst o1.
   cbn [is_resumption_error].
   specialize (N now). unfold client_action in N. unfold client_handshake at 1.
   destruct a as [|b a']; [contradiction|].
-  destruct (lookup_by_command c1 now t (b :: a') cm); [discriminate|].
-  destruct (full_auth c1 now t (b :: a') p2). reflexivity.
+  destruct (lookup_by_command c1 now t (b :: a') cm) as [e1|].
+  - destruct (has_usable_key e1); [discriminate|]. destruct (full_auth c1 now t (b :: a') p2). reflexivity.
+  - destruct (full_auth c1 now t (b :: a') p2). reflexivity.
 Qed.
 
 (* a session that is gone stays gone unless a server announces the same id again *)
@@ -799,6 +806,7 @@ Proof.
       cbn [client_entry e_id]. apply (Hn t (b0 :: a) cmd p fo); [left; reflexivity|exact Ef]. }
     unfold client_handshake. destruct a as [|b a']; [exact Hfull|]. destruct cmd as [cm|]; [|exact Hfull].
     destruct (lookup_by_command c now t (b :: a') cm) as [e|] eqn:L; [|exact Hfull].
+    destruct (has_usable_key e); [|exact Hfull].
     apply lookup_by_command_inv in L as (_ & F & _). apply find_sess_id in F as [_ F].
     pose proof (find_sess_none id _ e H F) as Hne.
     unfold resume_session. destruct (on_resume p (e_id e)); cbn [fst].
